@@ -106,3 +106,78 @@ def named_callable(argnames, impl):
     ns = {"impl": impl}
     exec(src, ns)
     return ns["f"]
+
+
+# ------------------------------------------------------------------ full geometry family (C12, C13)
+
+MAPS = {
+    # name: (map, inverse, derivative of map)
+    "exp": (lambda f: np.exp(f), lambda g: np.log(g), lambda f: np.exp(f)),
+    "affine": (lambda f: 2.0 * f + 1.0, lambda g: (g - 1.0) / 2.0, lambda f: 2.0 + 0 * f),
+    "cube": (lambda f: f ** 3, lambda g: np.cbrt(g), lambda f: 3 * f ** 2),
+}
+
+
+@st.composite
+def any_geom_spec(draw, max_dim=6, allow_mapped=True, kinds=None):
+    kinds = kinds or ["default", "cont1d", "discrete", "image", "image_vis", "default2d", "cont2d", "kl", "step", "mapped"]
+    kind = draw(st.sampled_from(kinds))
+    if kind == "mapped":
+        if not allow_mapped:
+            kind = "cont1d"
+        else:
+            base = draw(any_geom_spec(max_dim=max_dim, allow_mapped=False,
+                                      kinds=["cont1d", "discrete", "image", "cont2d", "kl", "step", "default"]))
+            return {"kind": "mapped", "base": base, "map": draw(st.sampled_from(sorted(MAPS))),
+                    "imap": draw(st.sampled_from([True, True, False]))}
+    if kind in ("image", "default2d", "cont2d"):
+        shape = [draw(st.integers(1, 3)), draw(st.integers(1, 3))]
+        if shape[0] * shape[1] < 2:
+            shape[1] = 2
+        spec = {"kind": kind, "shape": shape}
+        if kind == "image":
+            spec["order"] = draw(st.sampled_from(["C", "F"]))
+        return spec
+    n = draw(st.integers(2, max_dim))
+    return draw(geom1d_spec(n, [kind]))
+
+
+_make_geometry_1d = make_geometry
+
+
+def make_geometry(spec):  # noqa: F811  (extends the 1-D builder)
+    import cuqi
+    k = spec["kind"]
+    if k == "default2d":
+        return cuqi.geometry._DefaultGeometry2D(tuple(spec["shape"]))
+    if k == "mapped":
+        base = make_geometry(spec["base"])
+        m, im, _ = MAPS[spec["map"]]
+        return cuqi.geometry.MappedGeometry(base, m, im if spec["imap"] else None)
+    return _make_geometry_1d(spec)
+
+
+def geom_par_dim(spec):  # noqa: F811
+    k = spec["kind"]
+    if k == "mapped":
+        return geom_par_dim(spec["base"])
+    if k == "kl":
+        return spec["num_modes"]
+    if k == "step":
+        return spec["n_steps"]
+    if k in ("image", "cont2d", "default2d"):
+        return spec["shape"][0] * spec["shape"][1]
+    return spec["fun_dim"]
+
+
+def geom_fun_shape(spec):
+    k = spec["kind"]
+    if k == "mapped":
+        return geom_fun_shape(spec["base"])
+    if k in ("image", "cont2d", "default2d"):
+        return tuple(spec["shape"])
+    return (spec["fun_dim"],)
+
+
+def geom_kind(spec):
+    return spec["kind"] if spec["kind"] != "mapped" else f"mapped({spec['base']['kind']},{spec['map']},imap={spec['imap']})"
